@@ -80,6 +80,7 @@ void SelectorMatcher::startElement(const XMLElementDecl& elemDecl,
     XPathMatcher::startElement(elemDecl, urlId, elemPrefix, attrList, attrCount, validationContext);
     fElementDepth++;
 
+    bool activated = false;
     for(XMLSize_t k = 0;k<fLocationPathSize;k++)
     {
         // use the match flag of each member of the union
@@ -90,10 +91,17 @@ void SelectorMatcher::startElement(const XMLElementDecl& elemDecl,
         if ((fMatchedDepth[k] == -1 && ((matched & XP_MATCHED) == XP_MATCHED))
             || ((matched & XP_MATCHED_D) == XP_MATCHED_D)) {
 
+            // every member of the union that matches this element records the
+            // depth (its match flag stays set for the whole subtree); the value
+            // scope is opened once
+            fMatchedDepth[k] = fElementDepth;
+            if (activated)
+                continue;
+            activated = true;
+
             IdentityConstraint* ic = fSelector->getIdentityConstraint();
             XMLSize_t count = ic->getFieldCount();
 
-            fMatchedDepth[k] = fElementDepth;
             fFieldActivator->startValueScopeFor(ic, fInitialDepth);
 
             for (XMLSize_t i = 0; i < count; i++) {
@@ -101,7 +109,6 @@ void SelectorMatcher::startElement(const XMLElementDecl& elemDecl,
                 XPathMatcher* matcher = fFieldActivator->activateField(ic->getFieldAt(i), fInitialDepth);
                 matcher->startElement(elemDecl, urlId, elemPrefix, attrList, attrCount, validationContext);
             }
-            break;
         }
     }
 }
@@ -114,13 +121,16 @@ void SelectorMatcher::endElement(const XMLElementDecl& elemDecl,
 
     XPathMatcher::endElement(elemDecl, elemContent, validationContext, actualValidator);
 
+    bool ended = false;
     for(XMLSize_t k = 0;k<fLocationPathSize;k++)
     {
         if (fElementDepth == fMatchedDepth[k]) {
 
             fMatchedDepth[k] = -1;
-            fFieldActivator->endValueScopeFor(fSelector->getIdentityConstraint(), fInitialDepth);
-            break;
+            if (!ended) {
+                ended = true;
+                fFieldActivator->endValueScopeFor(fSelector->getIdentityConstraint(), fInitialDepth);
+            }
         }
     }
     --fElementDepth;
